@@ -39,6 +39,8 @@ pub fn engines() -> Vec<EngineDef> {
                 "the BuildResult images are what the assembler can produce: any byte string up to the largest flash (524288 bytes), plus the 1 MiB boundary and up to 8 MiB of the default device in thorough",
                 "simlibc intercepts every libc call the writers make (open64, write, writev, close, fsync, ftruncate, rename, unlink)",
                 "release semantics: overflow-checks and debug-assertions off, as cargo install builds",
+                "the public fields of a BuildResult may be changed in place between two calls (same buffers, other bytes); an earlier call - successful, or failed on this very output - never excuses the judged one",
+                "a configuration knob the writers read from the environment (a name outside the usual ones) is set to menu values in an extra run: Err is acceptable, Ok implies an exactly right file; an output path names what the kernel resolves it to (a '..' after a link to a directory leaves the link's target)",
                 "what is at the output path beforehand never excuses a wrong file after Ok: junk, a longer file, a symbolic link, or the right file cut short / with a record moved (made by a healthy call of the same writer, then damaged)",
                 "two callers writing different files: with nothing injected, a call that returns Ok alone returns Ok next to the other one (also below a directory that does not exist yet); the reverse is not demanded",
             ],
